@@ -275,6 +275,12 @@ theorem resetTo_restores (hc : CfgOK cfg) {g : GState} (hg : Inv cfg g) {s2 s3 :
     refine ⟨f1, ?_⟩
     rw [f3 (by rw [haddr, curPos_chunk hcu hci]; exact hd), haddr]
 
+theorem keptThrough_head {b : Block} {g : GState} {w : List (Op × List BaseResp)}
+    (h : C02.KeptThrough cfg b g w) : b ∈ g.s.live := by
+  cases w with
+  | nil => exact h
+  | cons x rest => exact h.1
+
 /-- the state a scope-like exit (or `reset_to` of a user checkpoint) produces from the result `s3` of `reset_to`:
     region stack `fr`, blocks and checkpoints younger than the mark of `g` forgotten -/
 theorem exit_restores (hc : CfgOK cfg) {g g2 : GState} (hg : Inv cfg g) (hg2 : Inv cfg g2) (hcov : ChunksCov g.s g2.s)
